@@ -1,7 +1,8 @@
 (** C15 — reaction-network store stays consistent under every history of edits.
     Statements only; every proof is [exact <lemma of proof/C15_Proof.v>]. *)
-From stdpp Require Import gmap strings sets pretty.
+From stdpp Require Import gmap strings sets pretty sorting.
 From SK Require Import model.C15_Model proof.C15_Proof.
+From SK Require Import model.C15_Ext proof.C15_Ext proof.C15_ExtQ proof.C15_ExtEx.
 Local Open Scope string_scope.
 
 (** ** 1. The store invariant *)
@@ -165,3 +166,251 @@ Theorem C15_copy_spec : forall (w : world) (i j : nat),
   j < length w -> getn (step w (OCopy i j)).1 j = getn w i.
 Proof. exact copy_spec. Qed.
 Print Assumptions C15_copy_spec.
+
+(** ** 6. (round 3) The whole public surface as a history language: [op2] / [step2]
+    of model/C15_Ext.v — input forms of RXNSide.from_any, sides given as RXNSide
+    OBJECTS (of another network, or caller-held and edited later), duck-typed
+    merge, coefficient edits through a returned edge, and every read-only view. *)
+
+(** RXNSide normalisation: the stored side is the positive integer multiset of
+    the positive counts given per label (a bare label counts 1, an empty bare
+    label is skipped); a label is a key exactly when its total is positive *)
+Theorem C15_normalize_spec : forall (l : list item) (x : string),
+  coef (normalize_items l) x =
+  foldr (fun it acc =>
+           (match it with
+            | IPair s c => if decide (s = x) then Z.max 0 c else 0
+            | ILabel s => if decide (s = x /\ s <> "") then 1 else 0
+            end + acc)%Z) 0%Z l.
+Proof. exact coef_normalize_items. Qed.
+Print Assumptions C15_normalize_spec.
+
+(** the pair form of the old history language is the all-pairs case *)
+Theorem C15_normalize_pairs : forall l : list (string * Z),
+  normalize l = normalize_items ((fun p => IPair p.1 p.2) <$> l).
+Proof. exact normalize_as_items. Qed.
+Print Assumptions C15_normalize_pairs.
+
+(** the old history language is embedded unchanged *)
+Theorem C15_step2_embeds : forall (w : world2) (o : op),
+  nets (step2 w (OBase o)).1.1 = (step (nets w) o).1 /\ (step2 w (OBase o)).1.2 = (step (nets w) o).2 /\
+  pool (step2 w (OBase o)).1.1 = pool w.
+Proof. exact step2_base. Qed.
+Print Assumptions C15_step2_embeds.
+
+(** every operation of the extended language, every outcome, keeps the invariant *)
+Theorem C15_inv_step2 : forall (w : world2) (o : op2),
+  Forall Inv (nets w) -> Forall Inv (nets (step2 w o).1.1).
+Proof. exact step2_Inv. Qed.
+Print Assumptions C15_inv_step2.
+
+Theorem C15_inv_reachable2 : forall (n k : nat) (ops : list op2),
+  Forall Inv (nets (fold_left (fun w o => (step2 w o).1.1) ops (init_world2 n k))).
+Proof. exact reachable2_Inv. Qed.
+Print Assumptions C15_inv_reachable2.
+
+(** an operation changes at most the network it targets; queries and edits of
+    caller-held side objects change no network at all (the store owns copies of
+    the sides it was given: [OAddFrom] / [OAddPool] store VALUES) *)
+Theorem C15_frame2 : forall (w : world2) (o : op2) (k : nat),
+  match o with
+  | OBase (OAdd i _ _ _ _) | OBase (ORemoveRxn i _) | OBase (ORemoveSpecies i _ _) | OBase (OMerge i _ _)
+  | OBase (OAssignMol i _ _) | OBase (OSetMolMap i _ _ _)
+  | OAddItems i _ _ _ _ | OAddFrom i _ _ _ _ | OAddPool i _ _ _ _ | OMergeRaw i _ _
+  | OSideSet i _ _ _ _ | OSideIncr i _ _ _ _ => Some i
+  | OBase (OCopy _ j) => Some j
+  | OPoolNew _ _ | OPoolEdit _ _ _ | OQuery _ _ | OPoolUpdate _ _ => None
+  end <> Some k ->
+  getn (nets (step2 w o).1.1) k = getn (nets w) k.
+Proof. intros w o k H. apply step2_frame. destruct o as [[]| | | | | | | | | |]; exact H. Qed.
+Print Assumptions C15_frame2.
+
+(** queries never change the state (and never fail as mutators) *)
+Theorem C15_query_pure : forall (w : world2) (i : nat) (q : query),
+  (step2 w (OQuery i q)).1.1 = w /\ (step2 w (OQuery i q)).1.2 = None.
+Proof. exact query_pure. Qed.
+Print Assumptions C15_query_pure.
+
+(** edits of caller-held side objects (before or after they were passed to
+    add_rxn) change no network; RXNSide.update adds the normalised counts *)
+Theorem C15_caller_objects : forall (w : world2) (k : nat) (x : string) (c : Z) (l : list item) (y : string),
+  nets (step2 w (OPoolEdit k x c)).1.1 = nets w /\ nets (step2 w (OPoolNew k l)).1.1 = nets w /\
+  nets (step2 w (OPoolUpdate k l)).1.1 = nets w /\
+  coef (side_update (getp (pool w) k) l) y =
+    (coef (getp (pool w) k) y +
+     foldr (fun it acc =>
+              (match it with
+               | IPair s c => if decide (s = y) then Z.max 0 c else 0
+               | ILabel s => if decide (s = y /\ s <> "") then 1 else 0
+               end + acc)%Z) 0%Z l)%Z.
+Proof.
+  intros. split; [apply pool_edit_pure|]. split; [apply pool_new_pure|]. split; [apply pool_update_pure|].
+  apply coef_side_update.
+Qed.
+Print Assumptions C15_caller_objects.
+
+(** *** molecule labels: stored exactly for present species, never for reaction ids *)
+
+Theorem C15_set_mol_map_spec : forall (s : net) (mp : list (string * string)) (strict clear : bool)
+                                      (s' : net) (er : option err),
+  set_mol_map s mp strict clear = (s', er) ->
+  (er = Some KeyError /\ s' = s /\ strict = true /\ exists p, p ∈ mp /\ p.1 ∉ species s) \/
+  (er = None /\ (strict = true -> forall p, p ∈ mp -> p.1 ∈ species s) /\
+   (species s' = species s /\ edges s' = edges s /\ order s' = order s /\ s_in s' = s_in s /\
+    s_out s' = s_out s /\ counters s' = counters s /\ kept s' = kept s) /\
+   mol s' = list_to_map (reverse (filter (fun p => p.1 ∈ species s) mp)) ∪ (if clear then ∅ else mol s)).
+Proof. exact set_mol_map_spec. Qed.
+Print Assumptions C15_set_mol_map_spec.
+
+(** a name that is not a present species — e.g. the id of a stored reaction, or a
+    species pruned earlier — gets no label, and strict=True rejects the table *)
+Theorem C15_set_mol_map_absent : forall (s : net) (mp : list (string * string)) (strict clear : bool)
+                                        (s' : net) (er : option err) (x : string),
+  Inv s -> set_mol_map s mp strict clear = (s', er) -> x ∉ species s ->
+  mol s' !! x = None /\ (strict = true -> x ∈ mp.*1 -> er = Some KeyError).
+Proof. exact set_mol_map_absent. Qed.
+Print Assumptions C15_set_mol_map_absent.
+
+(** a present species gets the LAST label the table gives for it, whatever the
+    label is (no truthiness test) *)
+Theorem C15_set_mol_map_present : forall (s : net) (mp : list (string * string)) (strict clear : bool)
+                                         (s' : net) (x m : string),
+  set_mol_map s mp strict clear = (s', None) -> x ∈ species s ->
+  (exists l1 l2, mp = (l1 ++ (x, m) :: l2)%list /\ x ∉ l2.*1) -> mol s' !! x = Some m.
+Proof. exact set_mol_map_present. Qed.
+Print Assumptions C15_set_mol_map_present.
+
+Theorem C15_assign_mol_spec : forall (s : net) (x m : string) (s' : net) (er : option err),
+  assign_mol s x m = (s', er) ->
+  (er = None /\ x ∈ species s /\
+   (species s' = species s /\ edges s' = edges s /\ order s' = order s /\ s_in s' = s_in s /\
+    s_out s' = s_out s /\ counters s' = counters s /\ kept s' = kept s) /\
+   mol s' = <[ x := m ]> (mol s)) \/
+  (er = Some KeyError /\ x ∉ species s /\ s' = s).
+Proof. exact assign_mol_spec. Qed.
+Print Assumptions C15_assign_mol_spec.
+
+Theorem C15_get_mol_spec : forall (s : net) (x : string),
+  match get_mol s x with
+  | inr m => x ∈ species s /\ mol s !! x = Some m
+  | inl QKeyError => x ∉ species s
+  | inl QNoLabel => x ∈ species s /\ mol s !! x = None
+  | inl QInternal => False
+  end.
+Proof. exact get_mol_spec. Qed.
+Print Assumptions C15_get_mol_spec.
+
+Theorem C15_get_after_assign : forall (s : net) (x m : string) (s' : net),
+  assign_mol s x m = (s', None) -> get_mol s' x = inr m.
+Proof. exact get_after_assign. Qed.
+Print Assumptions C15_get_after_assign.
+
+(** *** caller-side coefficient edits through a returned edge *)
+
+Theorem C15_coef_edit_spec : forall (sd : side) (x : string) (c b : Z) (y : string),
+  dom (side_set_g sd x c) = dom sd /\ dom (side_incr_g sd x b) = dom sd /\
+  coef (side_set_g sd x c) y = (if decide (y = x /\ x ∈ dom sd /\ (0 < c)%Z) then c else coef sd y) /\
+  coef (side_incr_g sd x b) y =
+    (if decide (y = x /\ x ∈ dom sd /\ (0 < coef sd x + b)%Z) then (coef sd x + b)%Z else coef sd y).
+Proof.
+  intros. split; [apply side_set_g_dom|]. split; [apply side_incr_g_dom|].
+  split; [apply coef_side_set_g|apply coef_side_incr_g].
+Qed.
+Print Assumptions C15_coef_edit_spec.
+
+Theorem C15_edit_side_spec : forall (s : net) (e : string) (lhs : bool) (f : side -> side) (s' : net) (er : option err),
+  edit_side s e lhs f = (s', er) ->
+  (er = Some KeyError /\ edges s !! e = None /\ s' = s) \/
+  (er = None /\ exists rx, edges s !! e = Some rx /\
+     edges s' = <[ e := if lhs then Rxn (r_rule rx) (f (r_lhs rx)) (r_rhs rx)
+                        else Rxn (r_rule rx) (r_lhs rx) (f (r_rhs rx)) ]> (edges s) /\
+     species s' = species s /\ order s' = order s /\ s_in s' = s_in s /\ s_out s' = s_out s /\
+     mol s' = mol s /\ kept s' = kept s /\ counters s' = counters s).
+Proof. exact edit_side_spec. Qed.
+Print Assumptions C15_edit_side_spec.
+
+(** history level for the extended language: a stored reaction stays under its id,
+    unchanged, unless the operation removes it, strips one of its species,
+    overwrites the network by a copy, or is a coefficient edit of exactly it *)
+Theorem C15_stored_kept2 : forall (w : world2) (o : op2) (k : nat) (e : string) (rx : rxn),
+  Forall Inv (nets w) -> edges (getn (nets w) k) !! e = Some rx ->
+  ~ match o with
+    | OBase (ORemoveRxn i e') => i = k /\ e' = e
+    | OBase (ORemoveSpecies i x _) => i = k /\ x ∈ rxn_species rx
+    | OBase (OCopy _ j) => j = k
+    | OSideSet i e' _ _ _ | OSideIncr i e' _ _ _ => i = k /\ e' = e
+    | _ => False
+    end ->
+  edges (getn (nets (step2 w o).1.1) k) !! e = Some rx.
+Proof.
+  intros w o k e rx Hw He Hn. apply step2_stored_kept; [exact Hw|exact He|].
+  intros Hd. apply Hn. destruct o as [[]| | | | | | | | | |]; exact Hd.
+Qed.
+Print Assumptions C15_stored_kept2.
+
+(** *** read-only views *)
+
+(** species_list / the two order lists of incidence_matrix: Python's sorted() *)
+Theorem C15_sorted_views : forall s : net,
+  (StronglySorted (fun a b => String.leb a b = true) (species_list s) /\ NoDup (species_list s) /\
+   forall x, x ∈ species_list s <-> x ∈ species s) /\
+  (StronglySorted (fun a b => String.leb a b = true) (edge_ids_sorted s) /\ NoDup (edge_ids_sorted s) /\
+   forall e, e ∈ edge_ids_sorted s <-> is_Some (edges s !! e)).
+Proof. intros s. split; [exact (species_list_spec s)|exact (edge_ids_sorted_spec s)]. Qed.
+Print Assumptions C15_sorted_views.
+
+(** __len__, iteration / edge_list, __contains__ *)
+Theorem C15_len_iter_contains : forall (s : net),
+  Inv s ->
+  len s = length (order s) /\
+  (edge_seq s).*1 = order s /\ list_to_map (edge_seq s) = edges s /\
+  forall x, contains s x = true <-> x ∈ species s \/ is_Some (edges s !! x).
+Proof.
+  intros s HI. split; [exact (len_spec s HI)|]. destruct (iter_spec s HI) as [H1 H2].
+  split; [exact H1|]. split; [exact H2|]. intros x. exact (contains_spec s x).
+Qed.
+Print Assumptions C15_len_iter_contains.
+
+(** neighbors: KeyError exactly for absent species, never an internal KeyError
+    from a stale index; the answer is the set of products of the consuming reactions *)
+Theorem C15_neighbors_spec : forall (s : net) (x : string),
+  Inv s ->
+  match neighbors s x with
+  | inr N => x ∈ species s /\
+             forall y, y ∈ N <-> exists e rx, edges s !! e = Some rx /\ x ∈ dom (r_lhs rx) /\ y ∈ dom (r_rhs rx)
+  | inl QKeyError => x ∉ species s
+  | inl _ => False
+  end.
+Proof. exact neighbors_spec. Qed.
+Print Assumptions C15_neighbors_spec.
+
+(** paths (soundness): every reported path starts at the source, ends at the
+    target, visits no species twice, moves along neighbours, and has at most
+    max_hops edges.  (Completeness and the order of the answers: oracle only.) *)
+Theorem C15_paths_sound : forall (s : net) (a b : string) (h : Z) (m : option Z) (ps : list (list string)) (p : list string),
+  Inv s -> paths s a b h m = inr ps -> p ∈ ps ->
+  exists rp, p = reverse rp /\ rpath s a rp /\ head rp = Some b /\ (Z.of_nat (length p) <= h + 1)%Z.
+Proof. exact paths_sound. Qed.
+Print Assumptions C15_paths_sound.
+
+(** what [rpath] says: built from [src] by steps to a neighbour not yet visited *)
+Theorem C15_rpath_meaning : forall (s : net) (src : string) (rp : list string),
+  rpath s src rp ->
+  NoDup rp /\ last rp = Some src /\
+  forall i n prev, rp !! i = Some n -> rp !! S i = Some prev ->
+    exists e rx, edges s !! e = Some rx /\ prev ∈ dom (r_lhs rx) /\ n ∈ dom (r_rhs rx).
+Proof. exact rpath_meaning. Qed.
+Print Assumptions C15_rpath_meaning.
+
+(** incidence_matrix(sparse=False): never fails; entry (x, e) = products − reactants;
+    it agrees with the sparse mapping and is 0 wherever the sparse mapping has no key *)
+Theorem C15_dense_spec : forall (s : net),
+  Inv s ->
+  exists m, dense s = Some m /\ length m = length (species_list s) /\
+  (forall i j x e, species_list s !! i = Some x -> edge_ids_sorted s !! j = Some e ->
+     m !! i ≫= (.!! j) = Some (dense_entry s x e)) /\
+  (forall x e rx, edges s !! e = Some rx -> dense_entry s x e = (coef (r_rhs rx) x - coef (r_lhs rx) x)%Z) /\
+  (forall x e v, (x, e, v) ∈ incidence s -> dense_entry s x e = v) /\
+  (forall x e, (forall v, (x, e, v) ∉ incidence s) -> dense_entry s x e = 0%Z).
+Proof. exact dense_full. Qed.
+Print Assumptions C15_dense_spec.
